@@ -167,17 +167,19 @@ Definition st_icon (s : shape) (b : rect) : rect :=
       else b
   | None => b
   end.
-Definition st_label (s : shape) (b : rect) : rect :=
+(* the label step, for a given way [ltl] of computing the label point (half pixels): the pinned code uses
+   bbox_label_tl, the repaired code of coq/C29/fix.patch uses the point d2svg draws at (fixed_label_tl below) *)
+Definition st_label (ltl : shape -> N -> Z -> Z -> Z * Z) (s : shape) (b : rect) : rect :=
   match s_label s with
   | Some (pos, lw, lh) =>
-      let '(px, py) := bbox_label_tl s pos lw lh in
+      let '(px, py) := ltl s pos lw lh in
       join b (htrunc px, htrunc py, htrunc px + lw, htrunc py + lh)
   | None => b
   end.
 
 (* one shape's contribution, in the order of the code *)
-Definition step_shape (b : rect) (s : shape) : rect :=
-  st_label s (st_icon s (st_mult s (st_3d s (st_shadow s (st_app s (st_c4 s (st_box s b))))))).
+Definition step_shape (ltl : shape -> N -> Z -> Z -> Z * Z) (b : rect) (s : shape) : rect :=
+  st_label ltl s (st_icon s (st_mult s (st_3d s (st_shadow s (st_app s (st_c4 s (st_box s b))))))).
 
 Definition label_rect_trunc (l : clabel) : rect :=
   (tr (l_x l), tr (l_y l), tr (l_x l) + l_w l, tr (l_y l) + l_h l).
@@ -195,11 +197,12 @@ Definition step_conn (b : rect) (c : conn) : rect :=
 Definition bbox_start : rect := (MAX_INT32, MAX_INT32, MIN_INT32, MIN_INT32).
 
 (* Diagram.BoundingBox *)
-Definition bbox (d : diagram) : rect :=
+Definition bbox_gen (ltl : shape -> N -> Z -> Z -> Z * Z) (d : diagram) : rect :=
   match d_shapes d with
   | [] => (0, 0, 0, 0)
-  | _ => fold_left step_conn (d_conns d) (fold_left step_shape (d_shapes d) bbox_start)
+  | _ => fold_left step_conn (d_conns d) (fold_left (step_shape ltl) (d_shapes d) bbox_start)
   end.
+Definition bbox : diagram -> rect := bbox_gen bbox_label_tl.   (* pinned code *)
 
 (* ---- what is drawn (integral rectangles that enclose the real extent: floor for min, ceil for max) ---- *)
 
@@ -223,6 +226,12 @@ Definition draw_label_tl (s : shape) (pos : N) (lw lh : Z) : Z * Z :=
   else if s_mult s then
     point_on_box pos (s_x s) (s_y s - MULTIPLE_OFFSET) (s_w s + MULTIPLE_OFFSET) (s_h s + MULTIPLE_OFFSET) LABEL_PADDING lw lh
   else point_on_box pos (s_x s) (s_y s) (s_w s) (s_h s) LABEL_PADDING lw lh.
+
+(* the repaired BoundingBox (coq/C29/fix.patch): outside and border labels on the same enlarged box *)
+Definition fixed_label_tl (s : shape) (pos : N) (lw lh : Z) : Z * Z :=
+  if is_outside pos || is_border pos then draw_label_tl s pos lw lh
+  else point_on_box pos (s_x s) (s_y s) (s_w s) (s_h s) LABEL_PADDING lw lh.
+Definition bbox_fixed : diagram -> rect := bbox_gen fixed_label_tl.
 
 (* the label rectangle of an outside / border label as drawn (inside labels are not part of the property) *)
 Definition label_extents (s : shape) : list rect :=
